@@ -69,6 +69,9 @@ SQLITE_REGISTRATION_MEANING = {
 # function they turn a REAL column INTEGER
 PYTHON_INT_VALUED_OF_FLOAT = {"math.floor", "math.ceil", "math.trunc"}
 
+# numpy functions whose result is an ndarray even for Series arguments (numpy.where / numpy.char.* do not go through __array_ufunc__)
+NUMPY_ARRAY_VALUED = {"numpy.where", "numpy.char.add", "numpy.asarray", "numpy.array", "numpy.isin"}
+
 # pandas / numpy names the Pandas executor falls through to for catalogued methods that are not in impl_map
 # (pandas 3.0.5 / numpy 2.5.3 in this sandbox; names verified once with dir() of the installed libraries)
 NUMPY_ELEMENTWISE = {
@@ -90,6 +93,9 @@ NULL_SEMANTICS = {
     "numpy.maximum": "propagate", "numpy.minimum": "propagate", "numpy.fmax": "ignore", "numpy.fmin": "ignore",
     "pl.max_horizontal": "ignore", "pl.min_horizontal": "ignore", "pl.coalesce": "first-non-null",
 }
+
+# the same primitives over pandas nullable (masked) columns: BaseMaskedArray.__array_ufunc__ ORs the operands' masks, whatever the ufunc
+NULL_SEMANTICS_MASKED = {"numpy.fmax": "propagate", "numpy.fmin": "propagate", "numpy.maximum": "propagate", "numpy.minimum": "propagate"}
 
 # documented null contracts of the comparison/selection family (from the property statement and the Term docstrings)
 NULL_CONTRACT = {"maximum": "propagate", "minimum": "propagate", "fmax": "ignore", "fmin": "ignore"}
